@@ -111,21 +111,21 @@ PENDING = {
 
 # Families added after the first version of each check (appended to the description).
 ADDENDA = {
- "C01": "A quarter of every generated pool runs under an adversarial consistent renaming (same names in different packages, packages sharing a name, blank/missing parameter names), a fifth blank-imports its own library packages; result kinds include funcs with (variadic) parameters, channels of channels, unicode and one-rune type names; probes with providers living in internal packages. One library package of every multi-package pool program lives under a directory whose name merely ends in \"vendor\"; injector templates as methods / with type parameters / with alias-typed parameters (internal, unexported, unnamed-struct, embedded alias = known finding F46) must be refused or compile together with a caller written in the template's form. Result kinds include interface literals that embed a named interface. Injector templates whose wire.Build call is parenthesised; doc and field comments that read as build constraints; several value variables of one suggested name in one injector. The callee of wire.Build / panic / wire.NewSet written in parentheses. Providers in an internal package of an internal package; a value function that re-enters its injector (known finding F70). Variadic injectors whose parameters are unnamed or blank (the generated implementation must stay assignable to the template's function type). Signatures naming an exported alias of a composite type that mentions an unexported foreign type (twelve positions).",
- "C02": "Added families: interface / concrete type / its input requested in every order (bind-order), a struct and its pointer type from two different sources with a field provider over one of them (counterparts), a parameter named like a later local of an assignable type, twin packages with same-named values; a compile error 'cannot use X as T in argument/struct literal/return' in wire_gen.go also counts as wrong wiring; zero-call injectors with two assignable arguments (pass-through-args); two packages sharing package clause and member names (twin packages). One type under two spellings (rune/int32, byte/uint8, any/interface{}; directly, as element, key, parameter, behind a pointer) supplied once and consumed three times, from five source kinds. Number, rune and string literals in every spelling as value sources. A function-local var / := / const spelled like a package-level set variable, in a file before or after the set's. Unnamed composite types on both sides of a diamond (six kinds, both argument orders); structs with two fields differing only in case.",
+ "C01": "A quarter of every generated pool runs under an adversarial consistent renaming (same names in different packages, packages sharing a name, blank/missing parameter names), a fifth blank-imports its own library packages; result kinds include funcs with (variadic) parameters, channels of channels, unicode and one-rune type names; probes with providers living in internal packages. One library package of every multi-package pool program lives under a directory whose name merely ends in \"vendor\"; injector templates as methods / with type parameters / with alias-typed parameters (internal, unexported, unnamed-struct, embedded alias = known finding F46) must be refused or compile together with a caller written in the template's form. Result kinds include interface literals that embed a named interface. Injector templates whose wire.Build call is parenthesised; doc and field comments that read as build constraints; several value variables of one suggested name in one injector. The callee of wire.Build / panic / wire.NewSet written in parentheses. Providers in an internal package of an internal package; a value function that re-enters its injector (known finding F70). Variadic injectors whose parameters are unnamed or blank (the generated implementation must stay assignable to the template's function type). Signatures naming an exported alias of a composite type that mentions an unexported foreign type (twelve positions). The twin-library value program (compile clause).",
+ "C02": "Added families: interface / concrete type / its input requested in every order (bind-order), a struct and its pointer type from two different sources with a field provider over one of them (counterparts), a parameter named like a later local of an assignable type, twin packages with same-named values; a compile error 'cannot use X as T in argument/struct literal/return' in wire_gen.go also counts as wrong wiring; zero-call injectors with two assignable arguments (pass-through-args); two packages sharing package clause and member names (twin packages). One type under two spellings (rune/int32, byte/uint8, any/interface{}; directly, as element, key, parameter, behind a pointer) supplied once and consumed three times, from five source kinds. Number, rune and string literals in every spelling as value sources. A function-local var / := / const spelled like a package-level set variable, in a file before or after the set's. Unnamed composite types on both sides of a diamond (six kinds, both argument orders); structs with two fields differing only in case. Bindings spelled three ways with both T and *T provided; two sets declared in one var spec.",
  "C03": "Added: the full product of provider result shapes over chains (links through bindings and struct fields, providers in two packages), the result-kind matrix (zero value per kind, judged on the typed result variable so a typed nil in an interface is non-zero). Cleanup chains of 12 and 23 providers (thorough 37, 104): cleanup variable numbering beyond 10 and 100. Cleanup providers sharing one function name across packages. Injector templates with named results (seven name triples meeting cleanup / err / the local of a type). Unnamed composite types on both sides of a diamond.",
  "C04": "Added: the full product of provider result shapes over chains, injectors without an error result and with a single cleanup. Cleanup providers sharing one function name across packages (also packages of one name). Injector templates with named results (seven name triples); an injector call that produces more than 200 000 trace events is cut off and counted as a panic (endless recursion in a generated cleanup). Unnamed composite types on both sides of a diamond.",
  "C05": "Added source kind: a second binding to the same concrete type; placements inline / two levels / inline siblings; the same set listed twice; class SPELL: one type written in two spellings ([]byte/[]uint8, rune/int32, any/interface{}). Source kind bindVia: a binding that can only be resolved after a later one of the same group, in four placements and both orders. Two injector parameters of identical types are always tried in the injector's own signature. Every other cell spells its injector parameters _.",
  "C06": "Added near-miss rows: FieldsOf parent counterparts, variadic providers whose slice type has no source (nothing / element / array / pointer-to-slice provided). Near-miss forms: another instantiation of the same generic type (also nested), the other spelling of a type (accepted); positions: a later parameter / field of the provider that also takes the provided near miss. Positions: embedded field under \"*\", an input of the provider of a struct a field is selected from. A type provided only by the blank-named sibling initialiser of the listed set's var spec.",
- "C07": "Every graph family also comes with its sources spread over several set variables (5 layouts incl. sub-sets listed directly in wire.Build); scaling lattices through struct fields, bindings and field providers. Added: binding chains (50/200/400 long, listed from either end) with a step counter on the used-bindings walk; an erroneous leaf set under 4/8/16 levels of doubled set inclusion, judged on the number of diagnostic lines (linear budget, at most tripling when depth doubles); the spelling-twins programs under the step cap. Sets of interface bindings that only lead to each other (loops, tails into loops); every wire process runs under a CPU-time cap whose exhaustion is reported like a step-cap event. Layouts 5 and 6: bindings in the including set / directly in Build over one Base set; adapters between function types with permuted parameters must not be reported as cycles.",
+ "C07": "Every graph family also comes with its sources spread over several set variables (5 layouts incl. sub-sets listed directly in wire.Build); scaling lattices through struct fields, bindings and field providers. Added: binding chains (50/200/400 long, listed from either end) with a step counter on the used-bindings walk; an erroneous leaf set under 4/8/16 levels of doubled set inclusion, judged on the number of diagnostic lines (linear budget, at most tripling when depth doubles); the spelling-twins programs under the step cap. Sets of interface bindings that only lead to each other (loops, tails into loops); every wire process runs under a CPU-time cap whose exhaustion is reported like a step-cap event. Layouts 5 and 6: bindings in the including set / directly in Build over one Base set; adapters between function types with permuted parameters must not be reported as cycles. Refused programs (removal mutants rich in field selections) must be refused within the step cap.",
  "C08": "Added: bind-order family as contributing controls; pass-through injectors (result is a parameter, directly or behind a binding; value only; field of a parameter) x every superfluous kind. Controls: a FieldsOf item listing several fields of which one is needed, listed directly in wire.Build (value and pointer parents, pointer-to-field). A superfluous binding at every position around binding chains listed in five orders. Superfluous items spelled exactly like a used one (same name, same package clause, other import path).",
  "C09": "Duplicate parameter / field types in 9 kinds (named, alias, *T, []T, map, func, chan, array, **T) written out twice; injector-needs rule through bindings, struct fields, field parents, nested and foreign sets, and NOT for unneeded set members. Needs rule also with a harmless provider of the same name called earlier (other package; two packages sharing a package name) and after a struct provider used in both forms. Duplicate parameter / field / injector-parameter types written in two spellings (rune/int32, byte/uint8, any/interface{}). Illegal providers nobody needs, inside used nested sets. One struct field named twice or three times in wire.Struct.",
- "C10": "Added: a base set shared by 3-4 wrapper sets each adding a different source for one interface; C13's relocation-sensitive value expressions placed in the injector's package and in another package's set. Adapters between function types that differ only in parameter order.",
- "C11": "Added: bind-order family (executed), order-dependent negatives (legal *C binding first, illegal C binding later), interface-to-interface negatives. Two thirds of all programs spell the arguments of wire.Bind as typed nil pointers instead of new(...). Zero-call injectors returning the parameter an interface binding designates. Negatives: a binding in an inline nested set whose concrete type only the enclosing set or Build provides (four placements).",
+ "C10": "Added: a base set shared by 3-4 wrapper sets each adding a different source for one interface; C13's relocation-sensitive value expressions placed in the injector's package and in another package's set. Adapters between function types that differ only in parameter order. Two sets declared in one var spec, either first, either listed first, also nested.",
+ "C11": "Added: bind-order family (executed), order-dependent negatives (legal *C binding first, illegal C binding later), interface-to-interface negatives. Two thirds of all programs spell the arguments of wire.Bind as typed nil pointers instead of new(...). Zero-call injectors returning the parameter an interface binding designates. Negatives: a binding in an inline nested set whose concrete type only the enclosing set or Build provides (four placements). Bindings spelled three ways with both T and *T provided.",
  "C12": "Added: both forms S and *S of one struct provider in one injector with a provider writing through the pointer (all 24 parameter orders); promoted-field negatives. Tags that merely look like wire's (protowire:\"-\", json:\"-\", a quoted wire:\"-\" inside another value). Field names made of underscores only (__, ___) next to _x and X_. Dotted field names (type, field, package, parent prefix) are not fields. Structs with two fields differing only in case.",
- "C13": "Added: literals with identifier keys, InterfaceValue cases (untyped nil, pointer-only implementers, typed nil; calls/receives = known finding F19), more wrapper productions (slice bounds, selectors/indexes of literals); non-constant builtin calls must be refused, constant ones accepted; value hazards: internal packages the injector cannot import, predeclared identifiers the injector's package redeclares (refused, or compiled and equal). Twin libraries that each import a different package under the same default name (region): value expressions of both end up in one generated file. InterfaceValue with values of interface type (unrelated, empty, wider, converted).",
+ "C13": "Added: literals with identifier keys, InterfaceValue cases (untyped nil, pointer-only implementers, typed nil; calls/receives = known finding F19), more wrapper productions (slice bounds, selectors/indexes of literals); non-constant builtin calls must be refused, constant ones accepted; value hazards: internal packages the injector cannot import, predeclared identifiers the injector's package redeclares (refused, or compiled and equal). Twin libraries that each import a different package under the same default name (region): value expressions of both end up in one generated file. InterfaceValue with values of interface type (unrelated, empty, wider, converted). A second application package in the twin program names one library differently.",
  "C14": "Added families: late imports (struct literal / value variable of a package nothing else names) vs parameters and locals of that name, invented parameter names, parameter/local collisions of assignable types, package name vs directory name (bar in bar2). Injector templates with named results; a copied helper that is the first declaration to need an import spelled under an alias, with a local / parameter / result / type-switch variable / closure variable spelled like the generated import name. Variadic injectors with unnamed / blank parameters. Copied helpers with a local const / type / label / type parameter spelled like the generated import name.",
- "C15": "Corpus additions: locals used as literal keys, local consts/types/type parameters named like generated imports, type-switch variables, embedded imported fields, numbered siblings; two injector files; every snippet meets every scheme in the quick tier. Nine schemes: the anchors that keep imports used may come last (a snippet is then the first to need its imports, plus dedicated first-use programs), and the second injector file may spell its imports differently from the first (same qualifier for different packages). Snippets for F71 (type-switch variable and local whose new names coincide) and F72 (local alias shadowing a package-level name, embedded in unnamed structs). go:embed detached by further comment groups.",
+ "C15": "Corpus additions: locals used as literal keys, local consts/types/type parameters named like generated imports, type-switch variables, embedded imported fields, numbered siblings; two injector files; every snippet meets every scheme in the quick tier. Nine schemes: the anchors that keep imports used may come last (a snippet is then the first to need its imports, plus dedicated first-use programs), and the second injector file may spell its imports differently from the first (same qualifier for different packages). Snippets for F71 (type-switch variable and local whose new names coincide) and F72 (local alias shadowing a package-level name, embedded in unnamed structs). go:embed detached by further comment groups. Init statements of type switch, switch, if / else-if, for, select.",
  "C16": "Added layout: GOPATH with the vendor directory inside the injector package's directory; value types of the same name in two packages plus neighbour programs in the same invocation, incl. neighbours that import the program's own library packages in both orders. The injector file blank-imports the program's own library packages (vendored in the GOPATH+vendor layouts). File lists named from the module root and by absolute paths.",
  "C17": "Added no-injector package variants (blank imports + init; a wireinject-tagged file without injector; a directory with only a _test.go file) and bad patterns (missing directory / all files excluded) x 4 commands. Options written before the command name (wire <opts> gen|diff ./...): honoured exactly as after it, or refused with exit 2 and an untouched tree (F73). Header kinds with a // +build line (F74).",
  "C18": "Seven source variants (one's output a prefix of another's; helpers named like the next variant's import/locals/value variable), damage kinds incl. same-length, whitespace, comment before header, future/ancient mtime; tails regenerating one accepted variant after another. gen / diff / gen / diff under one -tags list in five spellings inside histories.",
